@@ -59,7 +59,7 @@ Definition mk_stmt (inv : bool) (p ty : str) (c : card) : stmt :=
 
 (** row: inv prop type card tau (namespace prefix)*
     out: shex-status sense ptok vtok ctok | view: inv pred kind value min max
-         | dom wf rc1 rc2 rc3 rc4 | shacl-status arc* *)
+         | dom | shacl-status arc* *)
 Definition c11_stmt_row (r : list str) : list str :=
   let st := mk_stmt (fbool r 0) (fld r 1) (fld r 2) (card_of_field (fld r 3)) in
   let tau := fld r 4 in
@@ -77,8 +77,7 @@ Definition c11_stmt_row (r : list str) : list str :=
              [dec_of_N (c_min c); match c_max c with None => Str "N" | Some m => "S"%char :: dec_of_N m end]
   | _ => [[]; []; []; []; []; []]
   end ++
-  [bstr (C11_dom ns tau st); bstr (stmt_wf ns tau st); bstr (rc_bnode tau st); bstr (rc_nonliteral tau st);
-   bstr (rc_tau_card tau st); bstr (rc_tau_inverse tau st)] ++
+  [bstr (C11_dom ns tau st)] ++
   match shacl_arcs tau st with
   | VOk arcs => Str "ok" :: map arc_str arcs
   | v => [status_str v]
